@@ -1,13 +1,52 @@
 SPEC = {
-    "claimed": False,
+    "claimed": True,
     "gen": [],
-    "theorems": ["C19_nonvacuous"],
+    "theorems": ["C19_never_past_capacity", "C19_capacity_error", "C19_exact", "C19_exact_writes", "C19_reported_stable",
+                 "C19_release", "C19_release_nested", "C19_index_safety", "C19_nonvacuous"],
     "allowed_axioms": [],
     "extract": {"LibTw2.Model.Buffer": ["run_store", "prog_wf", "store_wf"]},
-    "components": [{"bin": "buffer", "driver": "drv_buffer"}],
+    "components": [{"bin": "buffer", "driver": "drv_buffer",
+                    "timeout": {"quick": 600, "thorough": 2400}}],
+    # the model has the arithmetic of the debug build (overflow checks on); a release build lets
+    # `advance(n)` wrap for n near usize::MAX (the caller of that unsafe fn breaks its contract)
     "release": False,
     "rule": "see components.buffer.rule",
-    "trusted_base": [],
-    "assumptions": [],
-    "explanation": "",
+    "trusted_base": [
+        "Model/Buffer.v is hand-written from buffer/src/{lib,traits}.rs and impls/*.rs (after fix 4eb9351): "
+        "memory = one flat byte list per root container, a BufferRef = (offset, length, counter) window into it; "
+        "that the unsafe code (slice::from_raw_parts_mut in vec.rs / arrayvec.rs, wildly_unsafe, set_len, the "
+        "lifetime-erasing with_buffer signature) performs exactly the accesses of this model is checked only by "
+        "the differential run (and rustc's borrow checker for the lifetimes), not proved",
+        "the ghost fields of the model (accepted-bytes log, visited view states, report pairs) are computed by "
+        "the same interpreter as the observable ones; the harness keeps its own shadow log and compares",
+        "readers are modelled by the bytes they hand out in one read call (&[u8], io::Take, io::Chain, BufReader, "
+        "Box<&mut _>, io::Repeat, io::Empty, two harness types carrying the crate's ReadBufferMarker)",
+    ],
+    "assumptions": [
+        "MEMORY-SAFETY HALF IS PARTIAL: 'no out-of-bounds or use-after-free access' is a statement about the "
+        "compiled program; the theorems prove the index arithmetic that implies in-bounds accesses "
+        "(C19_index_safety: every `[a..b]`, checked subtraction and set_len of buffer/src is within bounds in "
+        "every reachable state, every byte written lies inside the view's window inside the allocation), "
+        "they do not exhibit the machine-level accesses. No address-sanitizer run over the inputs of the other "
+        "checks is part of this check",
+        "use-after-free / lifetime soundness (the slice returned by initialized() outliving the view) rests on "
+        "rustc's borrow checking of the crate's signatures; the harness additionally checks that every returned "
+        "slice still holds the same bytes after all views are released",
+        "debug-build arithmetic (overflow-checks on), as the harness is built",
+        "programs use a view only through with_buffer (ToBufferRef::to_buffer_ref called once per intermediate, "
+        "as with_buffer does); BufferRef::new's debug_assert and the assert of the private cap_at are then unreachable",
+        "ArrayVec capacities are those arrayvec 0.5.2 implements without extra features: 0..32 and 40",
+    ],
+    "explanation": "theorems are proved by induction over the program tree for every store (any contents, any "
+                   "spare capacity, capped any number of times) and every program; the model is tied to "
+                   "buffer/src by running the real crate and the extracted model on the same random programs "
+                   "(every store kind x capacity 0..40 x pre-existing length, nested three deep, readers, early "
+                   "exits, panics of advance) and comparing every observable, and by asserting the property "
+                   "statement on the real code against an independent shadow log",
+    "level_text": "proof (counting / capacity / release / index arithmetic) + differential test; memory-safety half partial",
+    "level_note": "The counting, capacity, release and index-arithmetic statements are machine-checked for all "
+                  "stores and programs. The memory-safety half of C19 (no out-of-bounds or use-after-free access "
+                  "by the compiled unsafe code) cannot be exhibited by a Gallina model and is only supported: "
+                  "proved index arithmetic, rustc's lifetime checking, and the harness exercising the real unsafe "
+                  "code (no sanitizer run is wired into ./check).",
 }
